@@ -177,7 +177,7 @@ STATS = [
 
 def run(ctx: Ctx):
   st = {}
-  for r in (r1, r2, r3, r4, r5, r6, r7, r9, r10, r12):
+  for r in (r1, r2, r3, r4, r5, r6, r7, r9, r10, r12, r14):
     ctx.guard(r, st)
   from mlmverif.props import c11
   from mlmverif.props._agg import model as aggmodel
@@ -196,6 +196,55 @@ def run(ctx: Ctx):
               ' also through positional helper calls (R-C01-5 name pairing) — a'
               ' crossed pair (labels <-> predictions) leaves counts and shapes'
               ' right and every derived rate wrong', c01.r5, aggmodel(ctx), min_instances=10)
+
+def r14(ctx: Ctx, st):
+  rule = 'R-C07-14'
+  ctx.rule(rule, '"documented aliases agree with each other": the flip masks'
+           ' (binary = neg_to_pos + pos_to_neg; pos_to_neg(b, m) = neg_to_pos(m, b)) all'
+           ' classify a score against the threshold, so every comparison of a prediction'
+           ' with the threshold in signals/flip_masks must put the boundary score =='
+           ' threshold on the SAME side: `>` and `<=` call it negative, `>=` and `<` call'
+           ' it positive. A single deviating comparison makes a score exactly at the'
+           ' threshold count in one mask and not in its mirror image')
+  mi = ctx.repo.module('signals.flip_masks')
+  sides = []
+  for fi in mi.functions.values():
+    ps = fi.params()
+    th = [p_ for p_ in ps if 'threshold' in p_]
+    if not th:
+      continue
+    th = th[0]
+    for c in walk_no_nested(fi.node):
+      if not (isinstance(c, ast.Compare) and len(c.ops) == 1):
+        continue
+      l, r_, op = c.left, c.comparators[0], c.ops[0]
+      lt, rt = isinstance(l, ast.Name) and l.id == th, isinstance(r_, ast.Name) and r_.id == th
+      if lt == rt or not isinstance(op, (ast.Lt, ast.LtE, ast.Gt, ast.GtE)):
+        continue
+      other = r_ if lt else l
+      if not (isinstance(other, ast.Name) and other.id in ps):
+        continue
+      # orient as  score <op> threshold
+      o = type(op)
+      if lt:
+        o = {ast.Lt: ast.Gt, ast.Gt: ast.Lt, ast.LtE: ast.GtE, ast.GtE: ast.LtE}[o]
+      side = 'negative' if o in (ast.Gt, ast.LtE) else 'positive'
+      sides.append((fi, c, side))
+  if len(sides) < 6:
+    raise AnalysisError(f'{rule}: only {len(sides)} threshold comparisons found in signals/flip_masks (6 confirmed)')
+  from collections import Counter
+  major = Counter(sd for _, _, sd in sides).most_common(1)[0][0]
+  for fi, c, sd in sides:
+    if sd == major:
+      ctx.ok(rule, fi, f'{fi.name}: `{unparse(c)}` puts score == threshold on the {sd} side', c)
+    else:
+      ctx.fail(rule, fi, f'{fi.name}: threshold comparisons agree on the side of score == threshold',
+               f'`{unparse(c)}` treats a score equal to the threshold as {sd} while the other'
+               f' {sum(1 for _, _, s_ in sides if s_ == major)} comparisons of the flip masks treat it as {major}:'
+               ' for a score exactly at the threshold binary_flip_mask no longer equals neg_to_pos +'
+               ' pos_to_neg and pos_to_neg(base, model) differs from neg_to_pos(model, base)', node=c)
+  ctx.floor(rule, 6)
+
 
 
 def _c11_shared(sub, m):
@@ -989,6 +1038,10 @@ _C = 'aggregates/classification.py'
 _T = 'aggregates/retrieval.py'
 _MC = 'metrics/classification.py'
 VARIANTS = [
+    B('flip-mask-boundary-strict', 'signals/flip_masks.py',
+      '  model_under_threshold = model_prediction <= threshold', '  model_under_threshold = model_prediction < threshold', 'R-C07-14'),
+    OK('flip-mask-comparison-mirrored', 'signals/flip_masks.py',
+       '  model_under_threshold = model_prediction <= threshold', '  model_under_threshold = threshold >= model_prediction'),
     B('mrr-argmax-of-counts', 'aggregates/retrieval.py',
       '  ranks = np.argmax(tp_at_topks > 0, axis=1) + 1', '  ranks = np.argmax(tp_at_topks, axis=1) + 1', 'R-C07-12'),
     OK('mrr-mask-in-local', 'aggregates/retrieval.py',
